@@ -1,8 +1,8 @@
 package main
 
 import (
-	"go/types"
 	"fmt"
+	"go/types"
 	"sort"
 	"strings"
 
@@ -11,10 +11,10 @@ import (
 
 func init() {
 	register(&ruleSet{
-		id:         "C09",
-		title:      "assignment changes exactly the addressed location; reads never change the input",
-		run:        runC09,
-		decided:    "the read accessor (GetMember and its helpers) has no effect on non-local memory, and the read arms of the expression evaluator store through an operand only to auto-vivify an unset variable; no function replaces the slice header of an existing array value (array identity — violated today at four sites: known finding); copyValue's kind table (scalars get a fresh payload, arrays / objects / unset share, functions are an error) and every insertion point (assignment, call arguments, array and object literal elements) goes through it; index resolution and the fill loop (shared with C15/R4); the ++/-- table; speculative creation makes an object for a string key and an array for a numeric key, parent first." +
+		id:    "C09",
+		title: "assignment changes exactly the addressed location; reads never change the input",
+		run:   runC09,
+		decided: "the read accessor (GetMember and its helpers) has no effect on non-local memory, and the read arms of the expression evaluator store through an operand only to auto-vivify an unset variable; no function replaces the slice header of an existing array value (array identity — violated today at four sites: known finding); copyValue's kind table (scalars get a fresh payload, arrays / objects / unset share, functions are an error) and every insertion point (assignment, call arguments, array and object literal elements) goes through it; index resolution and the fill loop (shared with C15/R4); the ++/-- table; speculative creation makes an object for a string key and an array for a numeric key, parent first." +
 			" In GetMember's object arm the prototype is consulted only when the key is absent from the object; sort works on a clone with fresh cells." +
 			" The for-in loop variable receives a copy of the element.",
 		notDecided: "whole-document equality before / after a write.",
@@ -35,6 +35,7 @@ func runC09(c *Ctx) {
 	if eu := c.P.LangFunc("(*Evaluator).evalUnaryExpr"); eu != nil {
 		c.note("R5 incdec-table: ++ stores old+1 and -- old-1 into the operand's cell through evalAssignment; postfix yields the old number, prefix the updated value; the assignment's error is propagated (C11/R1).")
 		incdecTable(c, "R5", eu)
+		payloadImmutable(c, "R5")
 	} else {
 		c.undecided("R5", "evalUnaryExpr", "", "anchor not found")
 	}
@@ -226,6 +227,30 @@ func c09R3(c *Ctx) {
 				c.check(known && val, "R3", "copy-flag-honoured", p.InstrPos(call), "copyValue is applied when copy is true", "the copy in evalExprList is not controlled by its copy parameter")
 			}
 		}
+		// and the other way round: the evaluated cell itself goes into the list only when copy is false
+		// (whatever kind of expression produced it: a member read, an assignment and a match all hand
+		// back a cell that something else holds on to)
+		nRaw := 0
+		allInstrs(el, func(in ssa.Instruction) {
+			call, ok := in.(*ssa.Call)
+			if !ok {
+				return
+			}
+			bi, ok := call.Call.Value.(*ssa.Builtin)
+			if !ok || bi.Name() != "append" || len(call.Call.Args) < 2 {
+				return
+			}
+			r := p.Render(call.Call.Args[1])
+			if !strings.Contains(r, "(*lang.Evaluator).evalExpr(e, exprs[i@exprs])#0]") {
+				return
+			}
+			nRaw++
+			known, val := FactsOf(el).At(call.Block()).Truth(el.Params[2])
+			c.check(known && !val, "R3", "copy-flag-complete", p.InstrPos(call), "the evaluated cell itself is listed only when copy is false", "evalExprList puts the evaluated cell itself into the list on a path where copy is true (the copy is skipped for some kinds of expression): `[a[0]]`, `[n = 1]` or `f(o.k)` then share a cell with their source")
+		})
+		if nRaw == 0 {
+			c.undecided("R3", "copy-flag-complete", p.Pos(el.Pos()), "the append of the evaluated cell was not found in evalExprList")
+		}
 	}
 }
 
@@ -370,4 +395,48 @@ func isFreshArrayText(r string) bool {
 
 func isFreshObjectText(r string) bool {
 	return strings.HasPrefix(r, "lang.Value{Tag: ValueObj, Obj: &make(") || strings.HasPrefix(r, "lang.NewValue(make(map[") || strings.HasPrefix(r, "val(make(map[") || r == "lang.NewObject()"
+}
+
+// payloadImmutable: the scalar a value points to (*float64, *string, *bool) is written once, when it
+// is allocated. Copies of a value share that storage (a for-in variable, a plucked member, an
+// argument): a store through an existing payload pointer changes all of them at once.
+func payloadImmutable(c *Ctx, rule string) {
+	p := c.P
+	c.note("%s payload-immutable: every store through a *float64 / *string / *bool in package lang initialises a payload allocated in that function (its address is the fresh allocation); no store goes through a pointer read from Value.Num / Value.Str / Value.Bool or received from elsewhere.", rule)
+	n := 0
+	for _, fn := range p.Funcs {
+		if !p.InLang(fn) || p.inTestFile(fn) {
+			continue
+		}
+		allInstrs(fn, func(in ssa.Instruction) {
+			st, ok := in.(*ssa.Store)
+			if !ok {
+				return
+			}
+			pt, ok := st.Addr.Type().Underlying().(*types.Pointer)
+			if !ok {
+				return
+			}
+			b, ok := pt.Elem().Underlying().(*types.Basic)
+			if !ok || b.Info()&(types.IsNumeric|types.IsString|types.IsBoolean) == 0 {
+				return
+			}
+			if _, fresh := st.Addr.(*ssa.Alloc); fresh {
+				n++
+				return
+			}
+			// fields and elements of local aggregates are not payloads
+			switch st.Addr.(type) {
+			case *ssa.FieldAddr, *ssa.IndexAddr, *ssa.Global:
+				return
+			}
+			n++
+			c.violated(rule, "payload-store in "+shortName(fn)+": "+p.RenderShort(st.Addr), p.InstrPos(st), "a scalar payload is overwritten in place through "+p.RenderShort(st.Addr)+": every value that shares this storage (copies made by assignment, for-in, arguments) changes with it")
+		})
+	}
+	if n < 3 {
+		c.undecided(rule, "payload-store instance-floor", "", fmt.Sprintf("%d scalar stores found, 5 expected (NewValue's payload allocations)", n))
+	} else {
+		c.ok(rule, "payload-stores", "", fmt.Sprintf("%d scalar stores, all into fresh allocations", n))
+	}
 }
